@@ -572,8 +572,8 @@ def run_c19(tier: str) -> int:
         "every transmitted frame is compared with can_encode_msg_<m> of the same device bytes (second symbolic run)",
         "clang-14 -O0 IR; counterexamples replayed natively (clang and gcc) with a generated main()"]
     # BMC depth by device size: the number of send patterns per call grows with the number of messages
-    depth = lambda p: k if len(p) <= 2 else (max(3, k - 2) if len(p) == 3 else 3)
-    rep.bounds["bmc_depth_by_messages"] = {"1-2": k, "3": max(3, k - 2), "4": 3}
+    depth = lambda p: k if len(p) == 1 else (min(k, 4) if len(p) == 2 else 3)
+    rep.bounds["bmc_depth_by_messages"] = {"1": k, "2": min(k, 4), "3-4": 3}
     for r in pmap(c19_case, [(p, depth(p), tier) for p in devs]):
         rep.merge(r)
         if rep.red_enough():
